@@ -3,4 +3,5 @@ CONSTANTS
     Kinds = {"T", "C", "R", "L", "N", "H"}
     MaxLen = 0
     ReadSizes = {}
+    Short = FALSE
 INVARIANT Judge
